@@ -159,12 +159,43 @@ def write_replay(prop, name, payload):
     return p
 
 
+def implementation_fault(e):
+    """does this exception come from the implementation under test (a frame inside the gradysim package, or a
+    missing attribute / name of one of its modules, classes or objects)? -> description, else None"""
+    tb = traceback.extract_tb(e.__traceback__)
+    frames = [f for f in tb if "/gradysim/" in f.filename.replace("\\", "/")]
+    desc = f"{type(e).__name__}: {e}"
+    if frames:
+        f = frames[-1]
+        return f"{desc} (raised in {f.filename.split('/gradysim/', 1)[1]}:{f.lineno} {f.name})"
+    obj = getattr(e, "obj", None)
+    if isinstance(e, AttributeError) and obj is not None:
+        mod = getattr(obj, "__module__", None) or getattr(type(obj), "__module__", "") or ""
+        name = getattr(obj, "__name__", "")
+        if str(mod).startswith("gradysim") or str(name).startswith("gradysim"):
+            return f"{desc} (a name of the implementation's public interface is missing)"
+    if isinstance(e, ImportError) and "gradysim" in str(getattr(e, "name", "") or e):
+        return f"{desc} (the implementation cannot be imported)"
+    return None
+
+
 def evaluate(check, cases, want_model=True):
     """run impl (and model) on the cases; returns list of dict(case, impl, model, diffs, fails)."""
     rows = []
     lines, idx = [], []
     for case in cases:
-        impl = check.run_impl(case)
+        try:
+            impl = check.run_impl(case)
+        except Exception as e:
+            blame = implementation_fault(e)
+            if blame is None:
+                raise                         # a fault of the harness itself: infrastructure error (exit 2)
+            # the implementation under test failed where the harness does not expect failures (while importing
+            # it, building a scenario, or through a name of its public API that is gone): with this input the
+            # property cannot hold - reported as a violation with the input, never as an infrastructure error
+            rows.append({"case": case, "impl": None, "model": None, "diffs": [],
+                         "fails": [(f"{check.prop}:crash:{type(e).__name__}", blame)], "impl_crashed": True})
+            continue
         row = {"case": case, "impl": impl, "model": None, "diffs": [], "fails": []}
         rows.append(row)
         if want_model:
@@ -177,6 +208,8 @@ def evaluate(check, cases, want_model=True):
         for i, out in zip(idx, outs):
             rows[i]["model"] = out
     for row in rows:
+        if row.get("impl_crashed"):
+            continue
         if row["model"] is not None:
             if "error" in row["model"]:
                 row["diffs"] = ["model driver error: " + str(row["model"]["error"])]
@@ -299,13 +332,16 @@ def _main(check, tier, seed, replay, t0):
     acc = {}
     seen, nontrivial = set(), 0
     for r in rows:
+        if r.get("impl_crashed"):
+            acc["implementation_crashed_outside_a_run"] = acc.get("implementation_crashed_outside_a_run", 0) + 1
+            continue
         check.stats(r["case"], r["impl"], acc)
         if check.nontrivial(r["case"], r["impl"]):
             k = check.key(r["case"], r["impl"])
             if k not in seen:
                 seen.add(k)
                 nontrivial += 1
-    samples = [check.sample(r["case"], r["impl"]) for r in rows[:2]]
+    samples = [check.sample(r["case"], r["impl"]) for r in rows[:4] if not r.get("impl_crashed")][:2]
     ev = {
         "property_id": prop, "tier": tier, "seed": seed, "level": "proof",
         "coverage": {
